@@ -95,39 +95,74 @@ def rule_a(ctx, out):
             out.bad("rebuild:lookup-with-other-key", "the replacement map is not indexed with the computed sub-block name", where(rb))
     # writer index: generate_subblocks counts i from 0 by 1 and passes it as idx to both translators
     gs = ctx.func(f"{GO}.generate_subblocks")
-    # the sub-block counter is whatever generate_subblocks passes as `idx` to the translators
-    cnames = set()
-    for callee in ("translate_subblock", "translate_last_subblock"):
+    # the index handed to translate_subblock is the position of the sub-block in the list; the last sub-block gets len(list) - 1
+    def idx_arg(callee):
         t = ctx.func(f"{GO}.{callee}")
         if "idx" not in t.params:
             raise AnalysisError(f"{callee}: idx parameter not found")
-        for c in calls_in(gs.node, callee):
-            if len(c.args) > t.params.index("idx") and isinstance(c.args[t.params.index("idx")], ast.Name):
-                cnames.add(c.args[t.params.index("idx")].id)
-    if len(cnames) != 1:
-        raise AnalysisError(f"generate_subblocks: the translators are not given one counter variable as idx ({sorted(cnames)})")
-    I = cnames.pop()
-    init = [n for n in gs.node.body if isinstance(n, ast.Assign) and is_name(n.targets[0], I) and isinstance(n.value, ast.Constant) and n.value.value == 0]
-    loops = [n for n in gs.node.body if isinstance(n, ast.While)]
-    inc = [n for l in loops for n in l.body if isinstance(n, ast.AugAssign) and is_name(n.target, I) and isinstance(n.op, ast.Add)
-           and isinstance(n.value, ast.Constant) and n.value.value == 1]
-    other_writes = [n for n in own_nodes(gs.node) if isinstance(n, (ast.Assign, ast.AugAssign)) and any(is_name(t, I) for t in (n.targets if isinstance(n, ast.Assign) else [n.target]))
-                    and n not in init and n not in inc]
-    if init and len(inc) == 1 and not other_writes and loops and loops[0].body[-1] is inc[0]:
-        out.ok({"writer_index": f"{I} = 0; one `{I} += 1` as last statement of each iteration"})
+        cs = calls_in(gs.node, callee)
+        if len(cs) != 1 or len(cs[0].args) <= t.params.index("idx"):
+            raise AnalysisError(f"generate_subblocks: call of {callee} with an idx argument not found")
+        return cs[0], cs[0].args[t.params.index("idx")]
+    c_mid, a_mid = idx_arg("translate_subblock")
+    c_last, a_last = idx_arg("translate_last_subblock")
+    L = gs.params[1]
+    if not isinstance(a_mid, ast.Name):
+        raise AnalysisError("generate_subblocks: translate_subblock is not given a variable as idx")
+    I = a_mid.id
+    from ..core.flow import single_assignments
+    sa_ = single_assignments(gs.node)
+
+    def is_last_index(e, depth=0):
+        """e denotes len(L) - 1"""
+        if norm(e).replace(" ", "") == f"len({L})-1":
+            return True
+        if isinstance(e, ast.Name) and depth < 3:
+            defs = sa_.get(e.id, [])
+            return len(defs) == 1 and defs[0][2] is None and is_last_index(defs[0][1], depth + 1)
+        return False
+    loop = getattr(c_mid, "_parent", None)
+    while loop is not None and not isinstance(loop, (ast.While, ast.For)):
+        loop = getattr(loop, "_parent", None)
+    counter_ok, last_ok = False, False
+    if isinstance(loop, ast.While):
+        init = [n for n in gs.node.body if isinstance(n, ast.Assign) and is_name(n.targets[0], I) and isinstance(n.value, ast.Constant) and n.value.value == 0]
+        inc = [n for n in loop.body if isinstance(n, ast.AugAssign) and is_name(n.target, I) and isinstance(n.op, ast.Add) and isinstance(n.value, ast.Constant) and n.value.value == 1]
+        other_writes = [n for n in own_nodes(gs.node) if isinstance(n, (ast.Assign, ast.AugAssign))
+                        and any(is_name(t_, I) for t_ in (n.targets if isinstance(n, ast.Assign) else [n.target])) and n not in init and n not in inc]
+        bound = isinstance(loop.test, ast.Compare) and len(loop.test.ops) == 1 and isinstance(loop.test.ops[0], ast.Lt) and is_name(loop.test.left, I) \
+            and is_last_index(loop.test.comparators[0])
+        counter_ok = bool(init) and len(inc) == 1 and not other_writes and loop.body[-1] is inc[0]
+        # after `while I < len(L) - 1` with I advanced by one, I == len(L) - 1
+        last_ok = (is_name(a_last, I) and bound and counter_ok) or is_last_index(a_last)
+        how = f"{I} = 0; one `{I} += 1` as last statement of each iteration"
+    elif isinstance(loop, ast.For):
+        rng = loop.iter
+        counter_ok = is_name(loop.target, I) and isinstance(rng, ast.Call) and call_name(rng) == "range" and len(rng.args) == 1 and is_last_index(rng.args[0]) \
+            and not any(isinstance(n, (ast.Assign, ast.AugAssign)) and any(is_name(t_, I) for t_ in (n.targets if isinstance(n, ast.Assign) else [n.target]))
+                        for n in own_nodes(gs.node))
+        last_ok = is_last_index(a_last)
+        how = f"for {I} in range(len({L}) - 1)"
+    if counter_ok:
+        out.ok({"writer_index": how})
     else:
         out.bad("generate_subblocks:index-not-a-counter", "the sub-block index is not a counter from 0 advanced once per sub-block", where(gs))
+    # the sub-block translated in an iteration is the one at that index
+    fetched = [n for n in (loop.body if loop is not None else []) if isinstance(n, ast.Assign) and isinstance(n.value, ast.Subscript) and is_name(n.value.value, L)]
+    if fetched and all(is_name(n.value.slice, I) for n in fetched):
+        out.ok({"call": "translate_subblock", "idx": I, "sub_block": f"{L}[{I}]"})
+    else:
+        out.bad("generate_subblocks:translate_subblock:index-argument", f"translate_subblock is not given the position of the sub-block it translates ({L}[{I}])", where(gs, c_mid))
+    if last_ok:
+        out.ok({"call": "translate_last_subblock", "idx": f"len({L}) - 1"})
+    else:
+        out.bad("generate_subblocks:translate_last_subblock:index-argument", "translate_last_subblock is not given the index of the last sub-block", where(gs, c_last))
     for callee in ("translate_subblock", "translate_last_subblock"):
         t = ctx.func(f"{GO}.{callee}")
         pos = t.params.index("idx") if "idx" in t.params else None
         cs = calls_in(gs.node, callee)
         if pos is None or not cs:
             raise AnalysisError(f"{callee}: idx parameter / call site not found")
-        for c in cs:
-            if len(c.args) > pos and is_name(c.args[pos], I):
-                out.ok({"call": callee, "idx": I})
-            else:
-                out.bad(f"generate_subblocks:{callee}:index-argument", f"{callee} is not given the sub-block counter as idx", where(gs, c))
         # and hands it on as subblock=idx with the sub-block name
         gcalls = calls_in(t.node, "generate_json")
         for c in gcalls:
@@ -187,46 +222,70 @@ def rule_e(ctx, out):
     loops = [n for n in own_nodes(f.node) if isinstance(n, ast.While)]
     if not loops:
         raise AnalysisError("split_by_numbers: loop not found")
-    n = 0
+    stores = f.params[0]
+    result_lists = {r.value.id for r in own_nodes(f.node) if isinstance(r, ast.Return) and isinstance(r.value, ast.Name)}
+    # the running absolute cut: assigned from <list>[-1] after an append, or accumulated as  last = E + last
+    lasts = {st.targets[0].id for st in ast.walk(loops[0]) if isinstance(st, ast.Assign) and len(st.targets) == 1 and isinstance(st.targets[0], ast.Name)
+             and ((isinstance(st.value, ast.Subscript) and norm(st.value.slice) == "-1" and isinstance(st.value.value, ast.Name) and st.value.value.id in result_lists)
+                  or (isinstance(st.value, ast.BinOp) and isinstance(st.value.op, ast.Add) and any(is_name(x, st.targets[0].id) for x in (st.value.left, st.value.right))))}
+    if len(lasts) != 1:
+        raise AnalysisError("split_by_numbers: the running absolute cut was not identified")
+    last = lasts.pop()
 
-    def branches(stmts):
-        apps = [c for st in stmts if isinstance(st, ast.Expr) for c in [st.value] if isinstance(c, ast.Call) and call_name(c) == "append"]
-        if apps:
-            yield stmts, apps
+    def offset_added(stmts):
+        """relative offsets E such that a cut E + last is recorded in this statement list"""
+        res = []
+        for st in stmts:
+            e = None
+            if isinstance(st, ast.Expr) and isinstance(st.value, ast.Call) and call_name(st.value) == "append" and st.value.args:
+                e = st.value.args[0]
+            elif isinstance(st, ast.Assign) and len(st.targets) == 1 and is_name(st.targets[0], last):
+                e = st.value
+            if isinstance(e, ast.BinOp) and isinstance(e.op, ast.Add):
+                rel = [p for p in (e.left, e.right) if not is_name(p, last)]
+                if len(rel) == 1 and any(is_name(p, last) for p in (e.left, e.right)):
+                    res.append((st, rel[0]))
+        return res
+
+    def offset_subtracted(stmts):
+        res = []
+        for st in stmts:
+            if isinstance(st, ast.Assign) and len(st.targets) == 1 and is_name(st.targets[0], stores):
+                for l in ast.walk(st.value):
+                    body, var = None, None
+                    if isinstance(l, ast.Lambda) and l.args.args:
+                        body, var = l.body, l.args.args[0].arg
+                    elif isinstance(l, (ast.ListComp, ast.GeneratorExp)) and isinstance(l.generators[0].target, ast.Name):
+                        body, var = l.elt, l.generators[0].target.id
+                    if isinstance(body, ast.BinOp) and isinstance(body.op, ast.Sub) and is_name(body.left, var):
+                        res.append((st, body.right))
+        return res
+
+    def lists(stmts):
+        yield stmts
         for st in stmts:
             if isinstance(st, ast.If):
-                yield from branches(st.body)
-                yield from branches(st.orelse)
-    for stmts, apps in branches(loops[0].body):
+                yield from lists(st.body)
+                yield from lists(st.orelse)
+    n = 0
+    for stmts in lists(loops[0].body):
+        adds, subs = offset_added(stmts), offset_subtracted(stmts)
+        if not adds and not subs:
+            continue
+        if not adds or not subs:
+            out.bad("split_by_numbers:cut-and-rebase-apart", "a cut is recorded and the remaining positions are re-based in different branches: the two offsets "
+                    "cannot be matched", where(f, (adds or subs)[0][0]))
+            continue
         n += 1
-        arg = apps[0].args[0] if apps[0].args else None
-        if not (isinstance(arg, ast.BinOp) and isinstance(arg.op, ast.Add)):
-            out.bad("split_by_numbers:cut-not-relative-plus-last", f"the recorded cut `{short(arg, 40)}` is not <relative offset> + last", where(f, apps[0]))
-            continue
-        parts = [arg.left, arg.right]
-        # the absolute position of the last cut: the variable re-assigned from <cut list>[-1] right after the append
-        lst = norm(apps[0].func.value) if isinstance(apps[0].func, ast.Attribute) else None
-        lasts = {st.targets[0].id for st in stmts if isinstance(st, ast.Assign) and len(st.targets) == 1 and isinstance(st.targets[0], ast.Name)
-                 and isinstance(st.value, ast.Subscript) and norm(st.value.value) == lst and norm(st.value.slice) == "-1"}
-        if len(lasts) != 1:
-            raise AnalysisError("split_by_numbers: the running absolute cut (`last = split_list[-1]`) was not found")
-        last = lasts.pop()
-        rel = [p for p in parts if not is_name(p, last)]
-        if len(rel) != 1:
-            out.bad("split_by_numbers:cut-not-relative-plus-last", f"the recorded cut `{short(arg, 40)}` is not <relative offset> + {last}", where(f, apps[0]))
-            continue
-        E = norm(rel[0])
-        rebases = [st for st in stmts if isinstance(st, ast.Assign) and is_name(st.targets[0], f.params[0])]
-        lam = [l for st in rebases for l in ast.walk(st.value) if isinstance(l, ast.Lambda)]
-        subs = [l.body for l in lam if isinstance(l.body, ast.BinOp) and isinstance(l.body.op, ast.Sub) and is_name(l.body.left, l.args.args[0].arg)]
-        if len(rebases) == 1 and len(subs) == 1 and norm(subs[0].right) == E:
+        E = norm(adds[0][1])
+        if all(norm(x[1]) == E for x in adds) and all(norm(x[1]) == E for x in subs):
             out.ok({"function": "split_by_numbers", "cut": f"{E} + {last}", "remaining_positions_rebased_by": E})
         else:
-            got = norm(subs[0].right) if subs else "nothing recognisable"
-            out.bad(f"split_by_numbers:rebase-offset-differs:{canon(E, function_locals(f.node))}", f"the cut is recorded as {E} + {last} but the remaining store positions are re-based by {got}",
-                    where(f, rebases[0] if rebases else apps[0]))
-    if n < 2:
-        raise AnalysisError("split_by_numbers: the two cut branches were not found")
+            got = norm(subs[0][1])
+            out.bad(f"split_by_numbers:rebase-offset-differs:{canon(E, function_locals(f.node))}", f"the cut is recorded as {E} + {last} but the remaining store positions "
+                    f"are re-based by {got}", where(f, subs[0][0]))
+    if n < 1:
+        raise AnalysisError("split_by_numbers: no cut / re-base pair found")
 
 
 def rule_d(ctx, out):
@@ -246,7 +305,7 @@ def rule_d(ctx, out):
 
 
 RULES = [
-    ("C14.e", "partition cuts: relative positions are re-based by the offset of the cut", 2, rule_e),
+    ("C14.e", "partition cuts: relative positions are re-based by the offset of the cut", 1, rule_e),
     ("C14.d", "variable numbers are compared as numbers", 6, rule_d),
     ("C14.a", "sub-block names: one expression for writer and reader", 12, rule_a),
     ("C14.b", "split vocabulary has arities and translations", 15, rule_b),
